@@ -517,8 +517,11 @@ def run(tier, replay=None):
         rep.violation("worker-wedged", "%s (%d connections could not be judged)" % (summ["worker_wedged"], summ["inconclusive"]), summ)
     incon = summ["inconclusive"] + len([o for o in res if o.get("kind") == "note"])
     # (a dead or wedged worker explains the connections that could not be judged: a violation, never a tool error)
-    if not summ.get("worker_wedged") and not summ.get("worker_panic") and (summ["runs"] == 0 or incon * 5 > summ["runs"]):
-        raise vlib.ToolError("too many inconclusive connections (%d of %d): machine overloaded or the worker is wedged" % (incon, summ["runs"]))
+    # (so do stalled / garbled connections: the other endpoints of their scenarios give up; judged after the trace validation,
+    # a tool error never takes the place of a violation)
+    too_many_incon = (not summ.get("worker_wedged") and not summ.get("worker_panic") and (summ["runs"] == 0 or incon * 5 > summ["runs"]))
+    if too_many_incon and summ["runs"] == 0:
+        raise vlib.ToolError("drive_h2flow validated no connection at all")
 
     total_acc = 0
     labels = set()
@@ -537,6 +540,8 @@ def run(tier, replay=None):
             rep.violation(x["class"], "%s: %s at event %d (%s) of connection %s [%s]" % (
                 x["role"], x["class"], x["event_index"], json.dumps(x["event"])[:120], x["run"], x["label"]), x,
                 name="violation_%s_%s.json" % (x["role"], x["run"]))
+    if too_many_incon and not rep.violations:
+        raise vlib.ToolError("too many inconclusive connections (%d of %d): machine overloaded or the worker is wedged" % (incon, summ["runs"]))
     # vacuity guard of the full-duplex schedules (never in the way of a violation): on a tree where the property holds
     # the hook must have shown the situation they exist for - a control frame waiting behind a half-written stream frame
     if not rep.violations and half[0] == 0:
